@@ -474,6 +474,57 @@ def empty_spec_cases(res, only=None):
                 break
 
 
+def reconfigured_cases(res, only=None):
+    """A rule object that was evaluated once and is then pointed at something undefined (another base
+    module, an unknown module name, a diagram without tags) must not keep giving the earlier verdict."""
+    import pathlib
+
+    evs = evaluables()
+    d = diagram_files()
+    good = pathlib.Path(os.path.join(d, "good.puml"))
+
+    def dr_base(so):
+        r = DiagramRule(should_only_rule=so).from_file(good).with_base_module("r")
+        return r, (lambda: r.with_base_module("r.zz_undefined"))
+
+    def dr_file(so):
+        r = DiagramRule(should_only_rule=so).from_file(good).with_base_module("r")
+        return r, (lambda: r.from_file(pathlib.Path(os.path.join(d, "notags.puml"))))
+
+    def rule_obj(verb):
+        r = getattr(Rule().modules_that().are_named("r.a"), verb)().import_modules_that().are_named("r.c")
+        return r, (lambda: r.are_named("r.zz_undefined"))
+
+    def rule_subj(verb):
+        r = getattr(Rule().modules_that().are_named("r.a"), verb)().import_modules_that().are_named("r.c")
+        return r, (lambda: r.modules_that().are_sub_modules_of("r.zz_undefined"))
+
+    cases = [("diagram-base", so, dr_base) for so in (True, False)] + [("diagram-file", so, dr_file) for so in (True, False)]
+    cases += [("rule-object", v, rule_obj) for v in ("should", "should_only", "should_not")]
+    cases += [("rule-subject", v, rule_subj) for v in ("should", "should_only", "should_not")]
+    for name, arg, mk_ in cases:
+        if only is not None and only != [name, arg]:
+            continue
+        for ev in evs:
+            r, reconfigure = mk_(arg)
+            first = run_rule(r, ev)
+            try:
+                reconfigure()
+                got = run_rule(r, ev)
+            except Exception as e:  # noqa: BLE001 - rejected at the call: fine
+                got = ("ERR", f"{type(e).__name__}: {e}")
+            res.transitions += 2
+            res.evaluations += 1
+            res.traces += 1
+            res.nontrivial += 1
+            res.states += 1
+            res.stats[f"reconfigured:{first[0]}->{got[0]}"] += 1
+            if got[0] != "ERR":
+                res.violation("rule-object-re-configured-with-something-undefined-gives-verdict",
+                              {"part": "reconfigured", "case": [name, arg]}, "a configuration or lookup error", list(got))
+                break
+
+
 def entry_point_cases(res):
     base = scratch_dir("entry")
     try:
@@ -625,6 +676,12 @@ def run_shard(shard, tier, seed):
     elif part == "entry":
         entry_point_cases(res)
     elif part == "empty":
+        try:
+            reconfigured_cases(res)
+        finally:
+            if _DIAG_DIR:
+                remove_scratch(_DIAG_DIR)
+                _DIAG_DIR = None
         empty_spec_cases(res)
         res.sample({"part": "empty", "rule": "Rule().modules_that().are_named([]).should().import_modules_that().are_named('r.c')", "expected": "ImproperlyConfigured"})
     elif part == "unknown":
@@ -688,6 +745,13 @@ def _check_case(case):
         res.violations = [v for v in res.violations if v["kind"] == "regex-without-match-gives-verdict"]
     elif part == "entry":
         entry_point_cases(res)
+    elif part == "reconfigured":
+        try:
+            reconfigured_cases(res, only=case["case"])
+        finally:
+            if _DIAG_DIR:
+                remove_scratch(_DIAG_DIR)
+                _DIAG_DIR = None
     elif part == "empty":
         empty_spec_cases(res, only=case["case"])
     vs = [v for v in res.violations]
@@ -704,6 +768,8 @@ def minimise(v):
     elif c["part"] == "unknown-name":
         r = c["rule"]
         v["signature"] = f"{v['kind']}:{'anything' if r.get('anything') else r['verb'] + '/' + str(r['exc'])}:{'import' if r['imp'] else 'imported'}:{r['sk']}/{r.get('ok')}:limit{c.get('level_limit')}"
+    elif c["part"] == "reconfigured":
+        v["signature"] = f"{v['kind']}:{c['case'][0]}"
     elif c["part"] == "empty":
         v["signature"] = f"{v['kind']}:{c['case'][0]}:{c['case'][4]}:{c['case'][5]}"
     else:
